@@ -124,6 +124,12 @@ var LongIntType = &graphql.ScalarType{
 		}
 		return nil
 	},
-	VariableValueCoercion: coerceLongInt,
-	ResultCoercion:        coerceLongInt,
+	VariableValueCoercion: func(v interface{}) interface{} {
+		if _, ok := v.(bool); ok {
+			// only result coercion converts booleans
+			return nil
+		}
+		return coerceLongInt(v)
+	},
+	ResultCoercion: coerceLongInt,
 }
